@@ -17,7 +17,10 @@ RULE = ("cases: `eval <sigversion> <flags> <script> <oracle bits> <weight> <init
         "CHECKSIGADD / validation weight 49/50 / MINIMALIF), random opcode soup and random bytes; every vector of "
         "src/test/data/script_tests.json replayed as scriptSig-then-scriptPubKey evaluation under several oracles and through the "
         "whole VerifyScript (P2SH, witness v0, CLEANSTACK; taproot templates skipped); CHECKMULTISIG key/signature matching for "
-        "every key count 0..21 with the oracle deciding each pair; plus direct "
+        "every key count 0..21 with the oracle deciding each pair; taproot script-path spends of real TaprootBuilder trees (NUMS internal key, "
+        "1 or 2 leaves) and key-path spends through VerifyScript: leaf scripts with / without each OP_SUCCESSx opcode at every position, "
+        "before and after truncated pushes, arguments of 520/521 bytes, 1000/1001 arguments, annex present / absent, DISCOURAGE_OP_SUCCESS on / off, "
+        "leaf versions, control blocks truncated / extended / bit-flipped, the validation-weight boundary; plus direct "
         "CScriptNum / CastToBool / FindAndDelete / CheckSignatureEncoding cases. Non-trivial = an eval case whose script has at "
         "least two instructions; distinct = distinct case lines.")
 ASSUMPTIONS = ["hash functions are parameters of the model (Section variables); the limits theorem assumes only their output lengths (20/32 bytes)",
@@ -27,7 +30,8 @@ ASSUMPTIONS = ["hash functions are parameters of the model (Section variables); 
 TRUSTED = ["Coq 8.16.1 kernel (coqc; vm_compute for the generated-constant lemmas)",
            "tie/params/script.h + dump_params.cpp print opcode values, flag bit positions and limits from the compiled tree",
            "extraction: ExtrOcamlBasic only; ocaml/conv.ml + script_driver.ml glue; ocaml/script_hashes.ml (SHA-256/SHA-1/RIPEMD-160 for the hash opcodes)",
-           "tie/drivers/script_drv.cpp calls EvalScript / CScriptNum / FindAndDelete / CheckSignatureEncoding with a stub checker that is the same function of the oracle bits as the model's stub_checker"]
+           "tie/drivers/script_drv.cpp calls EvalScript / VerifyScript / CScriptNum / FindAndDelete / CheckSignatureEncoding with a stub checker that is the same function of the oracle bits as the model's stub_checker; "
+           "for taproot cases it builds the tree with TaprootBuilder on XOnlyPubKey::NUMS_H and the model side is told only whether the control block was tampered with"]
 
 NFLAGS = 21
 ALL = (1 << NFLAGS) - 1
@@ -326,6 +330,79 @@ def gen_multisig_clean(rng, B, tier):
     return c
 
 
+OP_SUCCESS = [80, 98] + list(range(126, 130)) + list(range(131, 135)) + [137, 138, 141, 142] + list(range(149, 154)) + list(range(187, 255))
+
+
+def tap(flags, leafver, depth, script, obits=0xffffffff, commit_ok=1, trunc=0, annex=None, args=()):
+    return "tapspend %d %d %d %s %d %d %d %s %d%s" % (flags, leafver, depth, hx(script), obits, commit_ok, trunc,
+                                                      "x" if annex is None else hx(annex), len(args), "".join(" " + hx(a) for a in args))
+
+
+def gen_taproot(rng, B, tier):
+    """taproot script-path and key-path spends through the real VerifyScript: leaf scripts with / without each OP_SUCCESSx at every
+    position (also before and after a truncated push), witness arguments of 520/521 bytes, 1000/1001 arguments, annex, leaf versions,
+    control block sizes and broken commitments, with and without DISCOURAGE_OP_SUCCESS"""
+    c = []
+    F0 = (1 << B["P2SH"]) | (1 << B["WITNESS"]) | (1 << B["TAPROOT"])
+    DOS = 1 << B["DISCOURAGE_OP_SUCCESS"]
+    bases = [(op("1"), []), (op("DROP") + op("1"), [b"\x01"]), (op("DROP") + op("DROP") + op("1"), [b"\x01", b"\x02"]),
+             (op("IF") + op("1") + op("ELSE") + op("1") + op("ENDIF"), [b"\x01"]), (push(b"abc") + op("DROP") + op("1"), []),
+             (op("SIZE") + op("NIP"), [b"\x07" * 3]), (op("DEPTH") + op("0") + op("EQUAL"), [])]
+    argsets = lambda a: [a, [bytes(520)] + a[1:] if a else [bytes(520)], [bytes(521)] + a[1:] if a else [bytes(521)], a + [bytes(521)],
+                         [b"\x01"] * 1000, [b"\x01"] * 1001, [b"\x01"] * 999 + [bytes(521)], [bytes(521)] + [b"\x01"] * 1000, []]
+    def flagsets():
+        return [F0, F0 | DOS, F0 | rng.getrandbits(NFLAGS), (F0 | rng.getrandbits(NFLAGS)) & ~DOS, F0 & ~(1 << B["TAPROOT"]), ALL]
+    # every OP_SUCCESSx opcode, at a random position of a random base script, against every argument shape
+    for sop in OP_SUCCESS:
+        script, a = rng.choice(bases)
+        ops = G.parse_ops(script)
+        pos = rng.randrange(len(ops) + 1)
+        s2 = b"".join(o[2] for o in ops[:pos]) + bytes([sop]) + b"".join(o[2] for o in ops[pos:])
+        for args in argsets(list(a)):
+            for fl in (F0, F0 | DOS):
+                c.append(tap(fl, 0xc0, rng.choice([0, 1]), s2, args=args, annex=rng.choice([None, None, b"\x50", b"\x50\xaa"])))
+    # one opcode at every position of every base script; truncated pushes before / after; the byte as push data; the nearest non-success opcodes
+    for script, a in bases:
+        ops = G.parse_ops(script)
+        for pos in range(len(ops) + 1):
+            for sop in (80, rng.choice(OP_SUCCESS), 0xbb, 0xfe, 0xff, 0xba, 0x61, 0x83):
+                s2 = b"".join(o[2] for o in ops[:pos]) + bytes([sop]) + b"".join(o[2] for o in ops[pos:])
+                for fl in flagsets():
+                    c.append(tap(fl, 0xc0, 0, s2, args=rng.choice(argsets(list(a)))))
+        for sop in (80, 0xfe):
+            for s2 in (b"\x02\x01" + bytes([sop]), bytes([sop]) + b"\x02\x01", script + bytes([sop]) + b"\x4c", script + b"\x4d\x01" , b"\x4e\xff\xff\xff\xff" + bytes([sop]),
+                       b"\x01" + bytes([sop]) + script, script + b"\x01" + bytes([sop]), bytes([sop]) + b"\x4e\x01", op("0") + op("IF") + bytes([sop]) + op("ENDIF") + script):
+                for args in ([], list(a), [bytes(521)], [b"\x01"] * 1001):
+                    for fl in (F0, F0 | DOS):
+                        c.append(tap(fl, 0xc0, rng.choice([0, 1]), s2, args=args, annex=rng.choice([None, b"\x50"])))
+    # without OP_SUCCESSx: limits, leaf versions, control block, commitment, annex look-alikes, signature opcodes and the weight budget
+    n = 500 if tier == "quick" else 20000
+    for _ in range(n):
+        script, a = rng.choice(bases)
+        r = rng.random()
+        if r < 0.3:
+            script = rand_block(rng, 0, 3)
+            a = [G.rand_num_bytes(rng) for _ in range(rng.randrange(0, 4))]
+        elif r < 0.45:
+            k = rng.randrange(1, 4)
+            a = [rng.choice([b"", b"\x01", bytes(64)]) for _ in range(k)]
+            script = op("0") + b"".join(push(rng.choice([bytes(32), bytes([i + 1]) * 32, bytes(33), b""])) + op("CHECKSIGADD") for i in range(k))
+        args = rng.choice(argsets(list(a))) if rng.random() < 0.5 else list(a)
+        c.append(tap(rng.choice(flagsets()), rng.choice([0xc0, 0xc0, 0xc0, 0xc2, 0x66, 0xfe]), rng.choice([0, 1]), script, rng.choice([0, 0xffffffff, rng.getrandbits(32)]),
+                     rng.choice([1, 1, 1, 0]), rng.choice([0, 0, 0, 0, 1, 32, 33, -1, -32, -32 * 127, -32 * 128]),
+                     rng.choice([None, None, b"\x50", b"\x50" + bytes(600), b"\x51", b""]) if False else rng.choice([None, None, b"\x50", b"\x50" + bytes(600)]), args))
+    # validation weight budget = serialized witness size + 50, 50 per executed non-empty signature check
+    for k in range(4, 10):
+        for pad in (0, 1, 2, 3, 5, 13):
+            s = (op("DUP") + push(bytes([7]) * 32) + op("CHECKSIG") + op("DROP")) * k + op("NOP") * pad + op("DROP") + op("1")
+            for ann in (None, b"\x50", b"\x50" + bytes(40)):
+                c.append(tap(F0, 0xc0, rng.choice([0, 1]), s, 0xffffffff, args=[b"\x01"], annex=ann))
+    for _ in range(60 if tier == "quick" else 2000):
+        c.append("tapkey %d %d %s %s" % (rng.choice(flagsets()), rng.choice([0, 0xffffffff, rng.getrandbits(32)]),
+                                        hx(rng.choice([b"", bytes([rng.randrange(256)]) + bytes(63), bytes(65), b"\x01"])), rng.choice(["x", "50", "50aa"])))
+    return c
+
+
 def gen_soup(rng, B, tier):
     c = []
     n = 2500 if tier == "quick" else 80000
@@ -361,8 +438,6 @@ def gen_json(rng, B, tier):
             vf |= (1 << B["P2SH"]) | (1 << B["WITNESS"])
         if vf >> B["WITNESS"] & 1:
             vf |= 1 << B["P2SH"]
-        if len(spk) == 34 and spk[0] == 0x51 and spk[1] == 0x20:
-            vf &= ~(1 << B["TAPROOT"])
         c.append("verify %d %s %s %d %d%s" % (vf, hx(ssig), hx(spk), rng.choice([0, 0xffffffff]), len(wit), "".join(" " + hx(e) for e in wit)))
         for w in wit[-1:]:
             # the witness script of P2WSH vectors, run as witness v0 on the rest of the witness stack
@@ -373,7 +448,7 @@ def gen_json(rng, B, tier):
 def gen(rng, tier):
     B = G.flag_bits()
     c = []
-    for g in (gen_limits, gen_numbers, gen_stackops, gen_flow, gen_sigs, gen_multisig_clean, gen_soup, gen_json):
+    for g in (gen_limits, gen_numbers, gen_stackops, gen_flow, gen_sigs, gen_multisig_clean, gen_taproot, gen_soup, gen_json):
         c += g(rng, B, tier)
     return c
 
@@ -400,7 +475,7 @@ def shrink(case):
 
 def nontrivial(c):
     w = c.split(" ")
-    return w[0] in ("eval", "evalpair", "verify") and len(w[3]) >= 4
+    return (w[0] in ("eval", "evalpair", "verify") and len(w[3]) >= 4) or w[0] in ("tapspend", "tapkey")
 
 
 TIES = [Tie("evalscript_fn", "tie/drivers/script_drv.cpp", "Extract_Script.v", "script_driver.ml", gen,
@@ -413,12 +488,19 @@ LEVEL_TEXT = ("Coq theorems about an executable Gallina transcription of EvalScr
               "conditionals rejected; disabled opcodes fail in unexecuted branches while other opcodes there are skipped; the "
               "ConditionStack pair (size, first false) implements a stack of booleans; per-opcode stack-effect lemmas (stack ops, PICK/ROLL, "
               "arithmetic, WITHIN); CHECKMULTISIG's loop succeeds exactly when the signatures match, in order, distinct keys in order; VerifyScript rules (P2SH/SIGPUSHONLY need a push-only scriptSig, CLEANSTACK leaves one true element, native "
-              "witness programs need an empty scriptSig); the opcode table agrees with the compiled tree. The model is tied to the real EvalScript by differential execution (result, error name, final stack, "
+              "witness programs need an empty scriptSig); tapscript: OP_SUCCESSx overrides everything (every witness stack succeeds, or DISCOURAGE_OP_SUCCESS), "
+              "otherwise stack > 1000 / element > 520 are rejected before execution, and a well-formed script-path spend is decided by "
+              "ExecuteWitnessScript on the arguments; the opcode table agrees with the compiled tree. The model is tied to the real EvalScript by differential execution (result, error name, final stack, "
               "validation weight, codeseparator position) on grammar-generated scripts at every limit and on script_tests.json.")
 LEVEL_NOTE = ("Trusted: Coq kernel, dump_params.cpp + tie/params/script.h, extraction + driver glue, the OCaml hash functions. "
               "Modelled: every opcode EvalScript handles (pushes, flow control, stack, arithmetic, hashes via parameters, CODESEPARATOR, "
               "CHECKSIG/CHECKSIGVERIFY/CHECKSIGADD/CHECKMULTISIG(VERIFY) with FindAndDelete and the DER/pubkey encoding checks, NOPs, CLTV, CSV) "
-              "under BASE, WITNESS_V0 and TAPSCRIPT. Not modelled in C12: the real signature/locktime checkers (oracle; C10), the OP_SUCCESSx "
-              "pre-scan and taproot commitment of ExecuteWitnessScript/VerifyWitnessProgram (VerifyScript's P2SH/witness-v0 logic is modelled in the "
-              "C11 check). The statement's 'agrees with an independent reference interpreter' is the differential tie, not a theorem about the C++.")
+              "under BASE, WITNESS_V0 and TAPSCRIPT; VerifyScript with P2SH, witness v0 and taproot: ExecuteWitnessScript in the code's order "
+              "(tapscript OP_SUCCESSx pre-scan, initial stack size, element sizes, EvalScript, cleanstack/true), annex removal, key path vs script "
+              "path, control-block size rule, leaf version dispatch, validation-weight initialisation from the serialized witness size. "
+              "Still not modelled (oracles): the real signature / locktime checkers (C10) and the taproot commitment check itself "
+              "(ComputeTapleafHash, ComputeTaprootMerkleRoot, XOnlyPubKey::CheckTapTweak) - a Section oracle in the theorems, genuine "
+              "TaprootBuilder trees on the NUMS key in the correspondence; the sighash-side use of annex / tapleaf hash / codeseparator position "
+              "by the Schnorr checker. The statement's 'agrees with an independent reference interpreter' is the differential tie, not a "
+              "theorem about the C++.")
 TECHNIQUE = "Coq proof (executable reference interpreter with proved rule-level properties) + differential correspondence"
